@@ -60,5 +60,6 @@ def run(ctx, rep):
     rep.run(RA.rule_mutate_only_fresh, ctx, rep, "G8", "gtwrap/", G8_EXEMPT, min_sites=60)
     rep.run(RG.rule_word_boundary, ctx, rep, "G9")
     rep.run(RT.rule_lists_kept_whole, ctx, rep, "G10")
+    rep.run(RT.rule_ctor_params_stored, ctx, rep, "G11")
     rep.require_min("G7", 2)
     rep.run(RF.rule_locals_defined, ctx, rep, "U1", packages=("gtwrap/interface_parser",), min_functions=3)
